@@ -153,3 +153,12 @@ CHECKS['C03'] = dict(
          'the inclusive [start, end] slice, every stored midpoint is start + an offset from that window only, the level is (first+last)/2 of the same window and flank, the '
          'fallback comparator is > for a rise and < for a decay, and the crossing rule is pinned. That the stored sample is the median crossing for a concrete signal is numpy semantics, not decided.',
     note='Trusted: np.median, np.sum, np.abs; reference in sa/refspec/cyclepoints.py.')
+
+CHECKS['C10'] = dict(
+    technique='unit (dimension) inference over the symbolic normal forms of the whole pipeline, with unit signatures for the neurodsp callees; absolute-level lint; effect summaries for state leaking between calls',
+    text='Decides the structural part of covariance: every output column has the unit the statement requires (samples for times and indices, signal amplitude for '
+         'voltages and band_amp, dimensionless for fractions, symmetries, consistencies and labels), every sum / comparison / alternative combines terms of one unit, no V-valued '
+         'term meets a non-zero literal or an absolute tolerance, fs and f_range reach neurodsp only in parameters of their own unit, and no option dictionary is written '
+         '(so no absolute length survives a call). Embedded positive examples (period/fs, volt > 0.1, allclose(sig, 0), volt + samples) must fire on every run. '
+         'Exact floating-point commutation with scale factors and the scale behaviour inside neurodsp are not decided.',
+    note='Trusted: unit seeds taken from the docstrings; unit signatures of filter_signal / amp_by_time / detect_bursts_dual_threshold / compute_filter_length.')
